@@ -10,6 +10,7 @@ Only property theorems and non-vacuity examples live here; helper lemmas are in 
 Proofs/Prob7.lean, Proofs/Prob8.lean; moments in Proofs/Prob5.lean, Prob6.lean, Prob9.lean).
 -/
 import Prs.Proofs.FormulasPc
+import Prs.Proofs.FormulasPc2
 import Prs.Proofs.FormulasStd
 import Prs.Proofs.Prob9
 import Mathlib.Data.Fin.VecNotation
@@ -182,6 +183,21 @@ theorem C06_source_var_unbiased (p : Fin K → ℚ) (hp : ∑ k, p k = 1) (hN : 
       = ∑ x : Fin N → Fin K, w p x * (pc1 (List.ofFn x)) ^ 2 - (∑ k, p k ^ 2) ^ 2 := by
   simp only [C06_source_varpc_n]
   exact C06_var_unbiased p hp hN
+
+/-- the unbiasedness of `pc` stated for the body of `pc` itself as re-translated from the source on this run (one flat sample:
+Generated/FormulasPc `pc_one_sample`): its expectation under multinomial sampling is exactly Σ p_k² -/
+theorem C06_source_pc_unbiased (p : Fin K → ℚ) (hp : ∑ v, p v = 1) (hN : 2 ≤ N) :
+    ∑ x : Fin N → Fin K, w p x * Generated.pc_one_sample (List.ofFn x) = ∑ k, p k ^ 2 := by
+  simp only [gen_pc_one_sample_eq]
+  exact C06_pc_unbiased p hp hN
+
+/-- … and for two independent samples the expectation of the translated two-sample branch is exactly Σ p_k q_k -/
+theorem C06_source_pc2_unbiased (p q : Fin K → ℚ) (hp : ∑ v, p v = 1) (hq : ∑ v, q v = 1)
+    (hN : 1 ≤ N) (hM : 1 ≤ M) :
+    ∑ x : Fin N → Fin K, ∑ y : Fin M → Fin K,
+        w p x * w q y * Generated.pc_two_samples (List.ofFn x) (List.ofFn y) = ∑ k, p k * q k := by
+  simp only [gen_pc_two_samples_eq]
+  exact C06_pc2_unbiased p q hp hq hN hM
 
 /-- `stdpc_n` of pyrepseq/stats.py (Generated/FormulasStd: `varpc_n` inlined, under the real power 1/2) returns the square root of
 the variance estimate for the same counts -/
